@@ -656,7 +656,7 @@ func adversaryDriver(args []string) error {
 		tw.Emit(trace.Ev{"a": "universe", "keys": keys})
 		budget := 700
 		if thorough {
-			budget = 8000
+			budget = 4000
 		}
 		nq := 0
 		for nq < budget {
